@@ -34,7 +34,8 @@ const KComposite = KArray | KMap | KStruct | KDisjunction
 type Gen struct {
 	Pkgs     []string // loaded packages
 	RefPkgs  []string // packages a reference may name (may include an unloaded one)
-	Names    []string // object names (references draw from the same alphabet)
+	Names    []string // object names (references draw from the same alphabet unless RefNames is set)
+	RefNames []string // names a reference may use
 	Fields   []string // field names
 	Scalars  []string // scalar kinds
 	Leaves   int      // mask for leaf positions
@@ -104,7 +105,7 @@ func (g *Gen) Scalar() ast.Type {
 	}
 	if g.Constraints {
 		if v.Choose(2) == 1 {
-			t.Scalar.Constraints = []ast.TypeConstraint{{Op: ast.Op(v.Str("op", ">=", "<", "minLength")), Args: []any{int64(v.Int("carg", 0, 3))}}}
+			t.Scalar.Constraints = []ast.TypeConstraint{{Op: ast.Op(v.Str("op", ">=", "<", "<=", ">", "minLength", "maxLength")), Args: []any{int64(v.Int("carg", 0, 3))}}}
 		}
 	}
 	return g.decorate(t)
@@ -119,8 +120,15 @@ func (g *Gen) ConstScalar() ast.Type {
 	}
 }
 
+func (g *Gen) RefName() string {
+	if len(g.RefNames) != 0 {
+		return v.Str("refname", g.RefNames...)
+	}
+	return g.Name()
+}
+
 func (g *Gen) Ref() ast.Type {
-	return g.decorate(ast.NewRef(g.RefPkg(), g.Name()))
+	return g.decorate(ast.NewRef(g.RefPkg(), g.RefName()))
 }
 
 // Enum builds an enum the way the three parsers do: member names are derived from
@@ -158,7 +166,7 @@ func (g *Gen) leafOf(mask int) ast.Type {
 	case KRef:
 		return g.Ref()
 	case KConstRef:
-		return ast.NewConstantReferenceType(g.RefPkg(), g.Name(), v.Str("constrefval", "x", "y"))
+		return ast.NewConstantReferenceType(g.RefPkg(), g.RefName(), v.Str("constrefval", "x", "y"))
 	case KEnum:
 		return g.Enum()
 	case KConstScalar:
@@ -200,11 +208,11 @@ func (g *Gen) Type(depth int) ast.Type {
 		}
 		return g.decorate(ast.NewDisjunction(br))
 	case KIntersection:
-		var br []ast.Type
-		for i := 0; i < g.Width; i++ {
-			br = append(br, g.Type(depth-1))
-		}
-		return ast.NewIntersection(br)
+		// what `allOf` produces: an inline struct (with an optional field and an anonymous enum) and a reference
+		opt := ast.NewStructField("level", g.Enum())
+		opt.Required = false
+		inline := ast.NewStruct(ast.NewStructField(g.FieldName(), g.Leaf()), opt)
+		return ast.NewIntersection([]ast.Type{inline, g.Ref()})
 	case KScalar:
 		return g.Scalar()
 	case KRef:
